@@ -7,6 +7,9 @@
 (*                              corrupted this transmission                 *)
 (*   [k |-> "rel", text]        a reply line handed to the host's reader    *)
 (*   [k |-> "end", joined]      print thread terminated, link drained       *)
+(*   [k |-> "newjob", job]      the job so far is over (thread terminated,  *)
+(*                              link drained) and startprint() is called    *)
+(*                              with another job on the same connection     *)
 (* The firmware is THIS specification (Marlin-style, as in SenderImpl): it  *)
 (* re-derives from the tx events which lines are accepted and which reply   *)
 (* lines are owed, so the harness's own bookkeeping is not trusted.         *)
@@ -62,40 +65,42 @@ FwStep(f, t, bad) ==
   ELSE [f EXCEPT !.owed = f.owed \o <<ResendLine(f.expected), OkLine>>,
                  !.rejected = Append(f.rejected, [at |-> f.ntx + 1, want |-> f.expected])]
 
+IsEnd(e) == e.k \in {"end", "newjob"}
+Joined(e) == e.k = "newjob" \/ e.joined
 Holds(c, T, e) ==
   \* every transmission is a framed, checksummed line -- except un-numbered priority commands, which are never job lines
   CASE c = "C15_Frame" -> e.k = "tx" =>
          \/ (Frame(e.text).ok /\ Frame(e.text).cs = Frame(e.text).sum)
-         \/ (Unnumbered(e.text) /\ \A i \in DOMAIN T.job : T.job[i] \o <<10>> # e.text)
+         \/ (Unnumbered(e.text) /\ \A i \in DOMAIN fw.job : fw.job[i] \o <<10>> # e.text)
     \* a job transmission carries exactly the job line its number stands for (comments stripped)
     [] c = "C15_Text"  -> (e.k = "tx" /\ Frame(e.text).ok /\ Frame(e.text).n >= 0) =>
-                             (Frame(e.text).n < Len(T.job) /\ Frame(e.text).cmd = T.job[Frame(e.text).n + 1])
+                             (Frame(e.text).n < Len(fw.job) /\ Frame(e.text).cmd = fw.job[Frame(e.text).n + 1])
     \* streaming starts with the line-number reset
-    [] c = "C15_First" -> (e.k = "tx" /\ fw.ntx = 0) => (Frame(e.text).ok /\ Frame(e.text).n = -1 /\ IsM110(Frame(e.text).cmd))
+    [] c = "C15_First" -> (e.k = "tx" /\ fw.ntxjob = 0) => (Frame(e.text).ok /\ Frame(e.text).n = -1 /\ IsM110(Frame(e.text).cmd))
     \* a resend request is served: the requested line is transmitted again shortly after the rejected one
     [] c = "C15_Resend" ->
-         e.k = "end" =>
+         IsEnd(e) =>
             \A i \in DOMAIN fw.rejected :
                LET r == fw.rejected[i] IN
-               (r.want >= 0 /\ r.want < Len(T.job) /\ r.at < fw.ntx) =>
+               (r.want >= 0 /\ r.want < Len(fw.job) /\ r.at < fw.ntx) =>
                   \E j \in (r.at + 1)..(r.at + 4) : j <= fw.ntx /\ fw.ns[j] = r.want
     \* the firmware ends up with every executable line of the job, once, in order
-    [] c = "C15_Complete" -> e.k = "end" => (e.joined /\ fw.accepted = T.job)
-    [] c = "C15_NoDup" -> e.k = "end" => \A i \in DOMAIN fw.accepted : i <= Len(T.job) /\ fw.accepted[i] = T.job[i]
+    [] c = "C15_Complete" -> IsEnd(e) => (Joined(e) /\ fw.accepted = fw.job)
+    [] c = "C15_NoDup" -> IsEnd(e) => \A i \in DOMAIN fw.accepted : i <= Len(fw.job) /\ fw.accepted[i] = fw.job[i]
     \* harness sanity: the reply lines handed to the host are the firmware's, in order
     [] c = "H_Replies" -> e.k = "rel" => (fw.owed # <<>> /\ e.text = Head(fw.owed))
 Ante(c, T, e) ==
   CASE c \in {"C15_Frame", "C15_Text"} -> e.k = "tx"
-    [] c = "C15_First" -> e.k = "tx" /\ fw.ntx = 0
-    [] c = "C15_Resend" -> e.k = "end" /\ fw.rejected # <<>>
-    [] c \in {"C15_Complete", "C15_NoDup"} -> e.k = "end"
+    [] c = "C15_First" -> e.k = "tx" /\ fw.ntxjob = 0
+    [] c = "C15_Resend" -> IsEnd(e) /\ fw.rejected # <<>>
+    [] c \in {"C15_Complete", "C15_NoDup"} -> IsEnd(e)
     [] c = "H_Replies" -> e.k = "rel"
 
 \* known findings: signature of the failing trace
 SigOf(c, T, e) ==
-  IF c \in {"C15_Complete", "C15_NoDup", "C15_Resend"} /\ e.k = "end" /\ e.joined /\ fw.m110bad THEN "M110Corrupted"
+  IF c \in {"C15_Complete", "C15_NoDup", "C15_Resend"} /\ IsEnd(e) /\ Joined(e) /\ fw.m110bad THEN "M110Corrupted"
   \* running ahead also makes the host end the job before a late resend request reaches it
-  ELSE IF c \in {"C15_Complete", "C15_Resend"} /\ e.k = "end" /\ e.joined /\ fw.piped THEN "TransmittedWhileInFlight"
+  ELSE IF c \in {"C15_Complete", "C15_Resend"} /\ IsEnd(e) /\ Joined(e) /\ fw.piped THEN "TransmittedWhileInFlight"
   ELSE ""
 
 NextFw(e) ==
@@ -103,17 +108,24 @@ NextFw(e) ==
          LET f1 == FwStep(fw, e.text, e.bad) IN
          [f1 EXCEPT !.ntx = fw.ntx + 1,
                     !.ns = Append(fw.ns, IF Frame(e.text).ok THEN Frame(e.text).n ELSE -99),
+                    !.ntxjob = fw.ntxjob + 1,
                     !.piped = fw.piped \/ fw.ntx > fw.noks,
-                    \* only the opening reset matters within one job: the closing one prepares the next job
-                    !.m110bad = fw.m110bad \/ (e.bad /\ fw.ntx = 0 /\ Frame(e.text).ok /\ IsM110(Frame(e.text).cmd))]
+                    \* Finding F13 is the OPENING reset of a job lost while the firmware's counter is not where the job needs
+                    \* it: the first job of a connection, or a later job whose predecessor's closing reset was lost as well.
+                    \* (A later job survives a corrupted opening reset: the closing one of the job before has done its work.)
+                    !.m110bad = fw.m110bad \/ (e.bad /\ fw.ntxjob = 0 /\ Frame(e.text).ok /\ IsM110(Frame(e.text).cmd)
+                                               /\ (fw.njob = 1 \/ fw.closebad)),
+                    !.closebad = IF fw.ntxjob > 0 /\ Frame(e.text).ok /\ IsM110(Frame(e.text).cmd) THEN e.bad ELSE fw.closebad]
     [] e.k = "rel" -> [fw EXCEPT !.owed = IF fw.owed = <<>> THEN <<>> ELSE Tail(fw.owed),
                                  !.noks = IF e.text = OkLine THEN fw.noks + 1 ELSE fw.noks]
+    [] e.k = "newjob" -> [fw EXCEPT !.job = e.job, !.njob = fw.njob + 1, !.ntxjob = 0, !.accepted = <<>>, !.rejected = <<>>,
+                                     !.piped = FALSE, !.m110bad = FALSE]
     [] OTHER -> fw
 
 Init ==
   /\ tid \in 1..Len(Traces) /\ l = 1
   /\ fw = [expected |-> 1, accepted |-> <<>>, executed |-> <<>>, owed |-> <<>>, rejected |-> <<>>, ntx |-> 0, noks |-> 0, ns |-> <<>>,
-           piped |-> FALSE, m110bad |-> FALSE]
+           piped |-> FALSE, m110bad |-> FALSE, job |-> Traces[tid].job, njob |-> 1, ntxjob |-> 0, closebad |-> FALSE]
   /\ cnt = [c \in Clauses |-> 0]
 Step ==
   /\ l <= Len(Traces[tid].ev)
